@@ -127,14 +127,26 @@ fn check(id: &str, tier: &str) -> i32 {
 	let _ = std::fs::remove_dir_all(&tmp);
 	std::fs::create_dir_all(&tmp).expect("tmp");
 	let mut children = Vec::new();
-	for i in 0..k {
-		let out = tmp.join(format!("shard{i}.json"));
-		let child = Command::new(&exe)
-			.args(["shard", id, tier, &i.to_string(), &k.to_string(), out.to_str().unwrap()])
-			.stdin(Stdio::null())
-			.spawn()
-			.expect("spawn shard");
-		children.push((i, child, out));
+	let shuttle_exe = verif_root().join("target/shuttle/release/pdbs");
+	let mut exes: Vec<(&str, PathBuf)> = Vec::new();
+	if p.engine == 0 || p.engine == 2 {
+		exes.push(("h", exe.clone()));
+	}
+	if p.engine == 1 || p.engine == 2 {
+		exes.push(("s", shuttle_exe));
+	}
+	// with two engines the shards are split between them
+	let per_engine = if exes.len() == 2 { k / 2 } else { k };
+	for (tag, e) in &exes {
+		for i in 0..per_engine {
+			let out = tmp.join(format!("shard{tag}{i}.json"));
+			let child = Command::new(e)
+				.args(["shard", id, tier, &i.to_string(), &per_engine.to_string(), out.to_str().unwrap()])
+				.stdin(Stdio::null())
+				.spawn()
+				.expect("spawn shard");
+			children.push((i, child, out));
+		}
 	}
 	let limit = Duration::from_secs((p.watchdog_s)(tier));
 	let mut undecided = Vec::new();
